@@ -14,35 +14,19 @@ ASSUMPTIONS = [
     "the synchronous driver is validated against the public-API driver on all short histories (conformance scenarios) "
     "and on every reported violation",
 ]
-SPEC = {'conf_quick': [('K0', 3)],
- 'conf_thorough': [('K0', 4), ('K9', 3)],
- 'quick': [('K1', 'ar', 7),
-           ('K0', 'std', 3),
-           ('K0', 'liq', 4),
-           ('K9', 'liq', 4),
-           ('K5', 'small', 3),
-           ('K1', 'small', 4),
-           ('lasso', 'K0', 'liq', 2, 30),
-           ('lasso', 'K5', 'pairs2', 2, 60)],
- 'thorough': [('K1', 'ar', 8),
-              ('K10', 'ar', 8),
-              ('K13', 'ar', 8),
-              ('K0', 'std', 4),
-              ('K1', 'std', 4),
-              ('K2', 'std', 4),
-              ('K3', 'std', 4),
-              ('K9', 'std', 4),
-              ('K10', 'std', 4),
-              ('K11', 'std', 4),
-              ('K5', 'std', 3),
-              ('K7', 'small', 4),
-              ('K0', 'small', 5),
-              ('K0', 'liq', 5),
-              ('K9', 'liq', 5),
-              ('K14', 'liq', 5),
-              ('lasso', 'K0', 'liq', 3, 120),
-              ('lasso', 'K1', 'small', 2, 120),
-              ('lasso', 'K5', 'small', 2, 120)]}
+SPEC = {
+    'quick': [('K1', 'ar', 7),
+              ('K0', 'std', 3),
+              ('K0', 'liq', 4),
+              ('K9', 'liq', 4),
+              ('K5', 'small', 3),
+              ('K1', 'small', 4),
+              ('lasso', 'K0', 'liq', 2, 30),
+              ('lasso', 'K5', 'pairs2', 2, 60)],
+    'conf_quick': [('K0', 3)],
+    'conf_thorough': [('K0', 3), ('K9', 3)],
+}
+SPEC['thorough'] = X.thorough_spec(SPEC['quick'], [('K1', 'lend'), ('K10', 'lend')])
 BOUNDS = {t: dict(spec=SPEC[t]) for t in ("quick", "thorough")}
 EXPLANATION = ("explicit-state BFS over operation histories with state de-duplication; every transition executes the "
                "real exchange; traces_validated_against_impl = histories executed through BOTH drivers (sync and "
